@@ -132,8 +132,21 @@ class C12Spec(c01.C01Spec):
             return
         for tag in orc.boom_tags:
             n = len(orc.cbs.get(tag, []))
-            if tag in orc.Gtag and n != 1:
-                orc.flag('raise_callback_count', 'the callback of the raising command %d (committed at %d) fired %d times' % (tag, orc.Gtag[tag], n))
+            if tag not in orc.Gtag:
+                continue
+            p = orc.Gtag[tag]
+            if n > 1:
+                orc.flag('raise_callback_count', 'the callback of the raising command %d (committed at %d) fired %d times' % (tag, p, n))
+                return
+            # "exactly once" is owed where an ordinary command's callback is certain too: the command was
+            # appended by the very node it was submitted on (that node led the entry's term), and that
+            # process is still alive and has applied the position
+            sub = orc.subs.get(tag)
+            if sub is None:
+                continue
+            h = w.hosts[sub[0]]
+            if orc.leaders.get(orc.G[p][2]) == sub[0] and h.node is not None and h.inc == sub[3] and h.node.raftLastApplied >= p and n != 1:
+                orc.flag('raise_callback_count', 'the callback of the raising command %d (submitted on and appended by host %d, committed at %d) fired %d times' % (tag, sub[0], p, n))
                 return
         sts = set((h.node.raftLastApplied, orc.app.model.observe(h.node)) for h in w.hosts if h.node is not None)
         if len(sts) != 1:
